@@ -64,6 +64,8 @@ func chunkList(cs [][]byte) string {
 func (w *world) execRead(op *readOp) (string, *readObs) {
 	st := &fakeReadStream{fakeStream: fakeStream{context.Background()}, failAt: op.failAt}
 	o := &readObs{zstd: strings.HasPrefix(op.kind, "zstd")}
+	w.cas.streaming = true
+	defer func() { w.cas.streaming = false }()
 	reply := guard(func() string {
 		o.err = w.bs.Read(&bytestream.ReadRequest{
 			ResourceName: resourceName(op.kind, op.hash, op.size, false),
@@ -74,7 +76,11 @@ func (w *world) execRead(op *readOp) (string, *readObs) {
 		if o.zstd {
 			o.plain, o.zfin = zdecode(bytes.Join(st.sent, nil))
 			if o.err != nil {
-				return "err " + canonNameErr(errTag(o.err)) + " -"
+				plain := hexs(o.plain)
+				if o.zfin != "c" {
+					plain = "undecodable-" + o.zfin
+				}
+				return "err " + canonNameErr(errTag(o.err)) + " " + plain
 			}
 			if o.zfin != "c" {
 				return "okz undecodable-" + o.zfin
